@@ -4,7 +4,7 @@ import vf, e1
 
 def main(tier, only=None):
     chk = vf.Check("C11", tier)
-    fams = only or ["utf8", "ident", "int", "escape", "wide"]
+    fams = only or ["utf8", "ident", "int", "escape", "wide", "ucn"]
     if any(f in fams for f in ("utf8", "ident")):
         chk.bounds += ["utf8: every code point 0..0x10FFFF minus surrogates (symbolic, no sampling)"]
         hs = [
@@ -44,9 +44,14 @@ def main(tier, only=None):
                e1.H("h_wchar", "wide/wchar-constant", unwind=8, defines=ND, replace_calls=(EA,), timeout=600)]
     if hs:
         e1.run_set(chk, "c11/lits.c", hs, extra_src=uni, workers=int(os.environ.get("VERIF_WORKERS", "8")))
+    if "ucn" in fams:
+        n = 11 if tier == "thorough" else 8
+        chk.bounds += ["ucn: convert_universal_chars on every buffer of <= %d symbols over { \\ u U 0 4 e A x } plus the final newline "
+                       "(covers \\uXXXX, \\\\uXXXX, adjacent and truncated names%s)" % (n, "; \\UXXXXXXXX needs 10 symbols: thorough tier" if n < 10 else ", \\UXXXXXXXX")]
+        e1.run_set(chk, "c11/ucn.c", [e1.H("h_ucn", "ucn/convert", unwind=n + 4, defines=ND + ("UCN_N=%d" % n,), timeout=1500)], extra_src=uni)
     chk.outside += ["floating constants (strtold text -> value), digit text -> value (strtoul)",
                     "hex escapes longer than 4 digits / octal escapes > 255 (out of range for the element type: "
-                    "constraint violations), universal character names (convert_universal_chars)",
+                    "constraint violations), universal character names beyond the ucn/* alphabet and length bound",
                     "u'c' (masked to 16 bits in tokenize()), u8 prefix, literals with more than one character, "
                     "concatenation of adjacent literals (preprocess.c join_adjacent_string_literals), "
                     "string_initializer in parse.c",
